@@ -27,7 +27,7 @@ ASSUMPTIONS = [
     "link keys beyond the configured key-table size, fields a version cannot store (v4: frame counters, children below v9) and the EUI64 when it cannot be rewritten are excluded, as the statement says",
     "command payload schemas inside the NCP model are bellows' own tables",
 ]
-PROBES = ["eui64.rewritten_nv3", "eui64.not_rewritable", "eui64.same", "eui64.custom_before", "eui64.unknown", "hashed_tclk.given", "hashed_tclk.generated", "link_keys.some", "link_keys.over_capacity", "link_keys.gap_in_table",
+PROBES = ["eui64.rewritten_nv3", "eui64.not_rewritable", "eui64.same", "eui64.custom_before", "eui64.unknown", "hashed_tclk.given", "hashed_tclk.generated", "link_keys.some", "link_keys.over_capacity", "link_keys.gap_in_table", "read_failed_on_unanswered_command", "read_returned_despite_unanswered_command",
           "children.some", "tc_address.unknown", "status_event_before_response", "token_api_missing", "mask_without_channel"]
 
 VERSIONS = list(range(4, 15))
@@ -60,10 +60,15 @@ def plan(tier):
         # a link key in the middle of the table is erased between write and read (what an unsecured rejoin of that device does): the rest must still be read
         for tmpl, erase in ((2, 1), (3, 0), (3, 7)):
             sweeps.append(("grid", {"V": V, "cap": 3, "tmpl": tmpl, "sched": False, "erase": erase}))
+    # one command of the read-back is never answered (10 s command timeout): the read may fail, it must never return something else than what was written
+    for V in (4, 7, 9, 13, 14):
+        ks = list(range(0, 40)) + list(range(40, 330, 3 if tier == "thorough" else 9))
+        for i in range(0, len(ks), 8):
+            sweeps.append(("grid", {"V": V, "cap": 3, "tmpl": 2, "sched": False, "drop_read": ks[i:i + 8]}))
     return {
         "sweeps": sweeps,
         "exhaustive": "versions 4..14 x capability variant {NV3 restored-EUI64 token; token API but no such token; token API answers invalidCommand; plain; NV3 token already holding a custom EUI64 (v9+)} x 4 settings templates",
-        "random": [("random", {}, 3), ("erase", {}, 1)],
+        "random": [("random", {}, 3), ("erase", {}, 1), ("dropread", {}, 1)],
         "runs": 250 if tier == "quick" else None,
         "budget_s": 60 if tier == "quick" else 900,
         "batch": 4,
@@ -136,6 +141,27 @@ def make_settings(tape, tmpl, ncp_eui):
 
 
 def run(scenario, params, tape, detail=False):
+    if isinstance(params.get("drop_read"), list):
+        # several cells in one run record: the k-th command of the read-back goes unanswered, for each listed k
+        out = None
+        for k in params["drop_read"]:
+            r = run(scenario, dict(params, drop_read=k), tape, detail)
+            if out is None:
+                out = r
+                out["sigs"] = {out.pop("sig")}
+                out["evals"] = 1
+            else:
+                out["viol"] += r["viol"]
+                out["sigs"].add(r["sig"])
+                out["evals"] += 1
+                out["vt"] += r["vt"]
+                out["iters"] += r["iters"]
+                for kk, v in r["probes"].items():
+                    out["probes"][kk] = out["probes"].get(kk, 0) + v
+                for kk, v in r["faults"].items():
+                    out["faults"][kk] = out["faults"].get(kk, 0) + v
+                out["digest"] = hashlib.sha256((out["digest"] + r["digest"]).encode()).hexdigest()[:16]
+        return out
     import zigpy.zdo.types  # noqa: F401
 
     V = params["V"] if "V" in params else VERSIONS[tape.draw(len(VERSIONS), "V")]
@@ -165,7 +191,7 @@ def run(scenario, params, tape, detail=False):
         elif cap == 2:
             ncp.has_token_data = False
             probe("token_api_missing")
-    ev_delay = (0.0, 0.0, 0.002, 0.05)[tape.draw(4, "evdelay")] if scenario in ("random", "erase") else (0.0, 0.002)[params.get("tmpl", 0) % 2]
+    ev_delay = (0.0, 0.0, 0.002, 0.05)[tape.draw(4, "evdelay")] if scenario in ("random", "erase", "dropread") else (0.0, 0.002)[params.get("tmpl", 0) % 2]
     ncp.cb_delay = lambda what: ev_delay
     if ev_delay == 0.0:
         probe("status_event_before_response")
@@ -200,6 +226,20 @@ def run(scenario, params, tape, detail=False):
             await app.cleanup_tc_link_key(eui(st["erased"][1]))
         # one more NCP reset between write and read (configuration is volatile, tokens are not)
         await app._reset()
+        drop = params.get("drop_read")
+        if scenario == "dropread":
+            drop = tape.draw(120, "drop_read")
+        if drop is not None:
+            base = len(ncp.requests)
+            orig_deliver = ncp.deliver
+
+            def deliver(req, payload):
+                if req.idx == base + drop:
+                    st["dropped"] = req.name  # the NCP never answers this one: the host's 10 s command timeout
+                    return
+                orig_deliver(req, payload)
+
+            ncp.deliver = deliver
         try:
             await app.load_network_info(load_devices=True)
         except Exception as e:
@@ -217,9 +257,14 @@ def run(scenario, params, tape, detail=False):
         viol.append(("C14.rt", "sim-" + outcome, f"{tag}: simulation ended with {outcome}: {val!r}"))
     elif st.get("write", ("",))[0] != "ok":
         viol.append(("C14.rt", "write-raised", f"{tag}: write_network_info raised {st['write'][1]}; {st.get('tb', '')[-400:]}"))
+    elif st.get("read", ("",))[0] != "ok" and st.get("dropped"):
+        probe("read_failed_on_unanswered_command")  # allowed: an operation may fail under a fault, it must not return wrong data
     elif st.get("read", ("",))[0] != "ok":
         viol.append(("C14.rt", "read-raised", f"{tag}: load_network_info raised {st['read'][1]}; {st.get('tb', '')[-400:]}"))
     else:
+        if st.get("dropped"):
+            probe("read_returned_despite_unanswered_command")
+            tag += f" (read-back command {st['dropped']} never answered)"
         net, nd = st["net"], st["node"]
         f = facts
 
